@@ -122,4 +122,22 @@ impl<D: Digest, const KS: usize, const SS: usize> SnmpAuth for DigestAuth<D, KS,
         data[offset..offset + SS].copy_from_slice(&d2[0..SS]);
         Ok(())
     }
+    fn verify(&self, data: &[u8], auth_params: &[u8]) -> bool {
+        if auth_params.len() != SS {
+            return false;
+        }
+        // Locate auth_params within the message
+        let offset = (auth_params.as_ptr() as usize).wrapping_sub(data.as_ptr() as usize);
+        if offset > data.len() || data.len() - offset < SS {
+            return false;
+        }
+        // RFC-3414, pp. 6.3.2: calculate the MAC over the message
+        // with zeroed auth parameters and compare with the received one
+        let mut msg = data.to_vec();
+        msg[offset..offset + SS].fill(0);
+        if self.sign(&mut msg, offset).is_err() {
+            return false;
+        }
+        msg[offset..offset + SS] == *auth_params
+    }
 }
